@@ -19,15 +19,17 @@ class RGen:
     def __init__(self, rnd, krylov=False):
         self.r = rnd
         self.krylov = krylov  # only base nodes below Prod/Kron/BDiag, all of them PSD
+        self.wide = False     # wide data regime: payload scales 1e-8..1e8, dense nodes with graded spectra (cond 1e3..1e8)
 
     def val(self, cplx):
         r = self.r
+        sc = 10.0 ** r.randint(-8, 8) if (self.wide and r.random() < 0.7) else 1
         if not cplx:
-            return [r.choice(REAL_VALS), 0]
+            return [r.choice(REAL_VALS) * sc, 0]
         while True:
             a, b = r.choice(REAL_VALS + [0, 0]), r.choice(REAL_VALS + [0, 0, 0])
             if a or b:
-                return [a, b]
+                return [a * sc, b * sc]
 
     def dt(self, cplx):
         return self.r.choice(DT_CPLX if cplx else DT_REAL)
@@ -158,6 +160,9 @@ class RGen:
             return self.dense_general(n, cplx) if r.random() < 0.6 else self.dense_psd(n, cplx)
         if self.krylov:
             return self.dense_psd(n, cplx)
+        if self.wide and n >= 2 and r.random() < 0.6:
+            f32 = r.random() < 0.15
+            return self.dense_graded(n, cplx, 10.0 ** (r.uniform(1, 3.4) if f32 else r.uniform(3, 8)), psd=r.random() < 0.5, f32=f32)
         x = r.random()
         if x < 0.35:
             return self.dense_general(n, cplx)
@@ -403,6 +408,129 @@ def dense(t):
     raise AssertionError(k)
 
 
+# ------------------------------------------------------------------ exact oracle (wide regime): Gaussian-rational determinant
+class GQ:
+    """Gaussian rational a + b i with Fraction components"""
+    __slots__ = ("a", "b")
+
+    def __init__(self, a, b=0):
+        self.a, self.b = Fraction(a), Fraction(b)
+
+    def __add__(self, o):
+        return GQ(self.a + o.a, self.b + o.b)
+
+    def __sub__(self, o):
+        return GQ(self.a - o.a, self.b - o.b)
+
+    def __mul__(self, o):
+        return GQ(self.a * o.a - self.b * o.b, self.a * o.b + self.b * o.a)
+
+    def inv(self):
+        n2 = self.a * self.a + self.b * self.b
+        return GQ(self.a / n2, -self.b / n2)
+
+    def conj(self):
+        return GQ(self.a, -self.b)
+
+    def nz(self):
+        return self.a != 0 or self.b != 0
+
+
+def _gq_arr(M):
+    M = np.asarray(M)
+    return [[GQ(Fraction(float(np.real(v))), Fraction(float(np.imag(v)))) for v in row] for row in M]
+
+
+def _gq_mul(A, B):
+    return [[_gq_sum(A[i][k] * B[k][j] for k in range(len(B))) for j in range(len(B[0]))] for i in range(len(A))]
+
+
+def _gq_sum(it):
+    out = GQ(0)
+    for x in it:
+        out = out + x
+    return out
+
+
+def exact_dense(t):
+    """the represented matrix in exact arithmetic: the payloads as stored in the operator's dtype, combined without rounding"""
+    k = t["k"]
+    Z, O = GQ(0), GQ(1)
+    if k in ("Dense", "Tri"):
+        return _gq_arr(np_arr(t["a"], t["dt"]))
+    if k == "Generic":
+        return _gq_arr(T.dense(t["t"]))
+    if k == "Lazy":
+        if t["form"] == "gram":
+            G = _gq_arr(np_arr(t["g"], t["dt"]))
+            GH = [[G[i][j].conj() for i in range(len(G))] for j in range(len(G[0]))]
+            M = _gq_mul(GH, G)
+            jit = GQ(Fraction(float(t["jitter"])))
+            return [[M[i][j] + (jit if i == j else Z) for j in range(len(M))] for i in range(len(M))]
+        A, B = _gq_arr(np_arr(t["parts"][0], t["dt"])), _gq_arr(np_arr(t["parts"][1], t["dt"]))
+        return [[A[i][j] + B[i][j] for j in range(len(A))] for i in range(len(A))]
+    if k == "Diag":
+        d = _gq_arr([np_vec(t["d"], t["dt"])])[0]
+        return [[d[i] if i == j else Z for j in range(len(d))] for i in range(len(d))]
+    if k == "Ident":
+        return [[O if i == j else Z for j in range(t["n"])] for i in range(t["n"])]
+    if k == "Scal":
+        c = _gq_arr([np_vec([t["c"]], t["dt"])])[0][0]
+        return [[c if i == j else Z for j in range(t["n"])] for i in range(t["n"])]
+    if k == "Perm":
+        n = len(t["p"])
+        return [[O if t["p"][i] == j else Z for j in range(n)] for i in range(n)]
+    if k == "Prod":
+        out = exact_dense(t["ms"][0])
+        for x in t["ms"][1:]:
+            out = _gq_mul(out, exact_dense(x))
+        return out
+    if k == "Kron":
+        out = exact_dense(t["ms"][0])
+        for x in t["ms"][1:]:
+            B = exact_dense(x)
+            m = len(B)
+            out = [[out[i // m][j // m] * B[i % m][j % m] for j in range(len(out) * m)] for i in range(len(out) * m)]
+        return out
+    if k == "BDiag":
+        blocks = [exact_dense(x) for x, mu in zip(t["ms"], t["mu"]) for _ in range(mu)]
+        n = sum(len(b) for b in blocks)
+        out = [[Z] * n for _ in range(n)]
+        o = 0
+        for b in blocks:
+            for i in range(len(b)):
+                for j in range(len(b)):
+                    out[o + i][o + j] = b[i][j]
+            o += len(b)
+        return out
+    raise AssertionError(k)
+
+
+def exact_slogdet(t):
+    """(phase, log|det|) of the exact determinant (Gaussian elimination over the Gaussian rationals)"""
+    M = [row[:] for row in exact_dense(t)]
+    n = len(M)
+    det = GQ(1)
+    for c in range(n):
+        p = next((r for r in range(c, n) if M[r][c].nz()), None)
+        if p is None:
+            return 0j, float("-inf")
+        if p != c:
+            M[c], M[p] = M[p], M[c]
+            det = det * GQ(-1)
+        det = det * M[c][c]
+        iv = M[c][c].inv()
+        for r in range(c + 1, n):
+            if M[r][c].nz():
+                f = M[r][c] * iv
+                M[r] = [M[r][j] - f * M[c][j] if j >= c else M[r][j] for j in range(n)]
+    n2 = det.a * det.a + det.b * det.b
+    logabs = 0.5 * (math.log(n2.numerator) - math.log(n2.denominator))
+    m = max(abs(det.a), abs(det.b))
+    z = complex(float(det.a / m), float(det.b / m))
+    return z / abs(z), logabs
+
+
 # ------------------------------------------------------------------ cola object -> decorated model tree
 def model_tree(A, alg, need):
     """Inspect the cola object (class, public attributes) and decorate base-case nodes with the oracle answers
@@ -443,6 +571,8 @@ def base_dec(A, alg, need):
     n = D.shape[0]
     which = need(psd, n)
     dec = dict(psd=psd, which=which, n=n)
+    with np.errstate(all="ignore"):
+        dec["cond"] = float(np.linalg.cond(D.astype(np.complex128))) if n else 1.0
     if which == "lu":
         p, L, U = sl.lu(D, p_indices=True)
         dec.update(p=[int(x) for x in p], L=L, U=U, resid=float(min(np.abs(L @ U - D[p]).max(), np.abs((L @ U)[p] - D).max())))
